@@ -183,6 +183,13 @@ func famRecreate(cloud bool, bounds map[string]int, extraThread string) []*Scena
 						{"resync", func() { _ = w.Resync() }},
 					}
 					switch extraThread {
+					case "split":
+						// the release loop hands every event to a goroutine of its own: the two events of the old incarnation
+						// (finished, deleted) are handled concurrently with each other and with the new incarnation's scheduling
+						ths = []Thread{{"sched-new", scheduleRetry(w, p.Key(), 2)}}
+						for i := range old {
+							ths = append(ths, Thread{fmt.Sprintf("deliver-old-%d", i), deliverAll(w, old[i:i+1])})
+						}
 					case "other":
 						// a different pod that wants an IP from the same (two-address) pool at the same time
 						o := wkClass{"sts", ""}.pod(7)
@@ -208,7 +215,18 @@ func famRecreate(cloud bool, bounds map[string]int, extraThread string) []*Scena
 					}
 					return ths
 				},
-				Final: quiesce,
+				Final: func(w *world.World) {
+					quiesce(w)
+					if extraThread == "split" {
+						// two further pods ask for the remaining addresses: an address taken from the live incarnation is handed out again
+						w.SetStatefulSet("ns", "o", 2)
+						for i := 0; i < 2; i++ {
+							o := world.PodSpec{Name: fmt.Sprintf("o-%d", i), NS: "ns", OwnerKind: "StatefulSet", OwnerName: "o"}
+							w.CreatePod(o)
+							scheduleRetry(w, o.Key(), 1)()
+						}
+					}
+				},
 			})
 		}
 	}
